@@ -22,8 +22,15 @@ import traceback
 
 HERE = os.path.dirname(os.path.abspath(__file__))
 VERIF = os.path.dirname(HERE)
-LEAN_DIR = os.path.join(VERIF, "lean")
 REPO = os.environ.get("POLYPLY_REPO", "/repo")
+LEAN_SRC = os.path.join(VERIF, "lean")
+if os.path.realpath(REPO) == "/repo":
+    LEAN_DIR = LEAN_SRC
+else:
+    # a run against a scratch copy of the repository gets its own copy of the lake project, so that
+    # its regenerated tables and rebuilt .olean files cannot race with runs against /repo
+    import hashlib as _hashlib
+    LEAN_DIR = "/tmp/polyply_verif_lean_" + _hashlib.sha1(os.path.realpath(REPO).encode()).hexdigest()[:10]
 GUARD = "POLYPLY_VERIF"
 os.environ[GUARD] = "1"
 os.environ.setdefault("TQDM_DISABLE", "1")
@@ -425,9 +432,19 @@ def finish(ctx, level="proof", extra_assumptions=()):
     return exit_code
 
 
+def sync_scratch_lean():
+    if LEAN_DIR != LEAN_SRC:
+        os.makedirs(LEAN_DIR, exist_ok=True)
+        with lean_lock():
+            subprocess.run(["rsync", "-a", "--exclude", "Generated", "--exclude", ".lake_lock",
+                            LEAN_SRC + "/", LEAN_DIR + "/"], check=True)
+
+
 def run_check(pid, tier, seed, module, replay=None):
     """The standard flow.  `module` provides run(ctx) and optionally replay(ctx, data)."""
     import gen_tables
+    sync_scratch_lean()
+    gen_tables.GEN_DIR = os.path.join(LEAN_DIR, "PolyplyVerif", "Generated")
     ctx = Ctx(pid, tier, seed)
     quiet_logs()
     if replay is not None:
